@@ -15,6 +15,16 @@ CLAIMED = {
              "evaluations over 64-bit boundary operands and every operator x type pair are validated by TLC against Expr!Eval (L3).",
         design="6/C06", technique="TLA+ spec (Expr, BigInt) + TLC totality check + TLC trace validation of recorded evaluations",
         note="Trusted: TLC, the harness value codec (int64 <-> base-2^13 limbs). Regex only for anchored literals; UTF-8 not interpreted."),
+    "C05": dict(
+        category="model_checking",
+        text="DatalogEngine.tla transcribes the join odometer (combine/advanceIndexes) step by step and TLC checks it against the "
+             "declarative Datalog!Matches for every catalogue body over every duplicate-free fact list (order matters to the code); "
+             "DatalogRun.tla models World.Run and is checked against Datalog!Lfp. Every enumerated instance plus seeded random "
+             "programs are executed on the real engine (all term types via embeddings) and each observation is validated by TLC "
+             "against the declarative semantics (TraceDatalog).",
+        design="6/C05", technique="TLA+ operational model of the join odometer vs declarative least fixpoint, TLC; spec->code replay and TLC trace validation",
+        note="Trusted: TLC, the harness embedding (injective constant map and its inverse). Bounds: bodies<=2(3) atoms, fact lists<=3(4), "
+             "programs from a 13-rule catalogue; random programs arity<=3, <=4 rules."),
 }
 
 PENDING_REASON = "check under construction in this round (specification module not yet bound to the code); not claimed until it runs green"
